@@ -28,7 +28,7 @@ CHECKS["C02"] = dict(
   note=TXN_NOTE)
 CHECKS["C03"] = dict(
   engine="parksched", category="fault_enumeration", design="5/C03",
-  technique="fault-script enumeration at the store seam of the implementation (all placements of <= F deviations at every RPC of Commit) combined with bounded-preemption interleaving with a reader whose resolver sees the locks expired; plus a definitely failing commit (scripted write-conflict answer) raced by a reader explored as an actor",
+  technique="fault-script enumeration at the store seam of the implementation (all placements of <= F deviations - lost request / answer as a plain or a typed deadline-exceeded error, store down, region errors, real split - at every RPC of Commit) combined with bounded-preemption interleaving with a reader whose resolver sees the locks expired; plus a definitely failing commit (scripted write-conflict answer) raced by a reader explored as an actor",
   text="All single (quick) and double (thorough) faults from {drop request, drop response, NotLeader, EpochNotMatch, ServerIsBusy, StaleCommand, real region split before delivery, clock jump past the TTL with a concurrent reader/resolver} at every RPC index of the committing client; Commit's answer (nil / definite error / undetermined) is compared with the final MVCC state after forced resolution; 'undetermined' is accepted only when a commit-point message was lost.",
   note=TXN_NOTE)
 CHECKS["C17"] = dict(
@@ -97,7 +97,7 @@ CHECKS["C13"] = dict(
   note="Trusted: scripted PD (issue and deliver are separate transitions), atomic shim (rt/c13atomic) and ticker-by-scenario clock shim (rt/c13x/ctime) injected by import rewriting of oracle/oracles/pd.go; sync.Map / mutex / singleflight internals are not points.")
 CHECKS["C14"] = dict(
   engine="parksched", category="model_checking", design="5/C14",
-  technique="crash-point enumeration of two victim transactions followed by the real GC lock resolution as an explored actor (scan limit 1..3, region split before any of its RPCs; one preemption inside the pass for a dead async-commit transaction), under the controlled scheduler; plus exhaustive grids on the real range task / delete-range task (static layouts and a region split injected between lookup and delivery of each request) / safe-point check (learned before and during the read)",
+  technique="crash-point enumeration of two victim transactions followed by the real GC lock resolution as an explored actor (scan limit 1..3, region split before any of its RPCs; one preemption inside the pass for a dead async-commit transaction), under the controlled scheduler; plus exhaustive grids on the real range task / delete-range task (static layouts, a region split injected between lookup and delivery of each request, the caller cancelling its context during each handler call) / safe-point check (learned before and during the read)",
   text="Lock populations are produced by crashing two victims at every combination of seam events within the fault budget (committed primary with unresolved secondaries, rolled back, pending, async-commit, 1PC, pessimistic locks), then tikv.ResolveLocksForRange runs with every scan limit and an optional split; after a successful pass no lock <= safe point remains, committed versions are unchanged and every victim is all-or-nothing and ack-consistent. RunOnRange is run over every layout x range x concurrency x regions-per-task x failing sub-range, DeleteRangeTask over the same grid against a map, snapshot reads at sp-1 / sp / sp+1.",
   note=TXN_NOTE + " GC starts only after every transaction below the safe point ended or crashed; lock-only keys are avoided on unistore (it keeps no commit record for them).")
 
@@ -109,7 +109,7 @@ CHECKS["C05"] = dict(
 
 CHECKS["C16"] = dict(
   engine="parksched", category="model_checking", design="5/C16",
-  technique="exhaustive enumeration of pipelined-transaction programs (set/delete/get/batch-get/flush/flush-wait, commit or rollback) x layouts with flushed keys on region borders, flush completion interleaved with the following calls under a preemption bound (thorough: a lost flush RPC), plus a resolver that expires and rolls back the flushed locks at every decision point and a region split right before any read of the flushed buffer, on the real pipelined KVTxn over unistore",
+  technique="exhaustive enumeration of pipelined-transaction programs (set/delete/get/batch-get/flush/flush-wait, commit or rollback) x layouts with flushed keys on region borders, flush completion interleaved with the following calls under a preemption bound (thorough: a lost flush RPC), plus a resolver that expires and rolls back the flushed locks at every decision point a region split right before any read of the flushed buffer, and a key-error answer to any one batch of a multi-batch flush, on the real pipelined KVTxn over unistore",
   text="Every program to the depth bound ending in commit or rollback on three layouts; every call is a scheduling point so that a running flush completes before or after the next calls; reads must return the latest program-order write at any tier, each mutation is part of exactly one flush generation, generations increase with at most one in flight, and after commit / rollback and drain every flushed key has the primary's outcome and no lock of the transaction is left.",
   note=TXN_NOTE + " unistore is the only backend (the in-repo mock has no Flush / BufferBatchGet); flush and resolve concurrency 1. The memory-level PipelinedMemDB harness of DESIGN (a) is subsumed by driving the real transaction.")
 
